@@ -171,12 +171,26 @@ where
             "force_merge::folder",
         );
 
+        #[cfg(feature = "search")]
+        let search = self.0.search_index().map(|index| index.search());
+
         let folder = self
             .0
             .folders_mut()
             .get_mut(folder_id)
             .ok_or_else(|| StorageError::FolderNotFound(*folder_id))?;
         folder.force_merge(&diff).await?;
+
+        // The vault was replaced so the search index documents
+        // for the folder must be rebuilt
+        #[cfg(feature = "search")]
+        if let Some(search) = search {
+            let mut search = search.write().await;
+            search.remove_vault(folder_id);
+            let access_point = folder.access_point();
+            let access_point = access_point.lock().await;
+            search.add_folder(&access_point).await?;
+        }
 
         outcome.changes += len;
         outcome.tracked.add_tracked_folder_changes(
